@@ -42,6 +42,16 @@ def adaptive_task(W, payload):
                {"op": "flow", "kind": "transition", "name": "b", "param": {"c": b}, "src": "I", "dst": "R"}]
         tols = [None, "1/1000000"]
         bump(out, "adaptive:coarse_grid")
+    if payload["index"] % 4 == 3:
+        # a split with an empty stratum whose other shares sum to slightly MORE than one (accepted: within the API's tolerance): nobody may be
+        # placed in the empty stratum, and certainly not a negative number of people
+        sh = r.choice([("3/5", "13/32"), ("1/2", "129/256"), ("3/4", "65/256")])
+        strata = ["low", "medium", "high"]
+        split = [["low", {"c": sh[0]}], ["medium", {"c": sh[1]}], ["high", {"c": "0"}]]
+        if r.random() < 0.5:
+            strata = ["high", "low", "medium"]
+        ops = ops[:2] + [ops[2], ops[3], {"op": "stratify", "kind": "plain", "name": "risk", "strata": strata, "comps": [ops[0]["comps"][0], ops[0]["comps"][1]], "split": split}]
+        bump(out, "adaptive:split_with_empty_stratum")
     for tol in tols:
         I = Interp()
         if not all(I.apply(op)["ok"] for op in ops):
